@@ -46,7 +46,14 @@ int main(int argc, char **argv) {
                 Array<Tags::TagBit> cache;
                 SS                  first;
                 Template::Render((const C *)b.p, SizeT(b.n), root, first, cache);
-                Template::Render((const C *)b.p, SizeT(b.n), root, o, cache);
+                if ((c & 4) != 0) {
+                    // ... from a copy of the cache (the parsed form is copyable: every tag keeps its kind and operands)
+                    Array<Tags::TagBit> copy{cache};
+                    Template::Render((const C *)b.p, SizeT(b.n), root, o, copy);
+                    vf::count("renders_from_copied_cache");
+                } else {
+                    Template::Render((const C *)b.p, SizeT(b.n), root, o, cache);
+                }
             } else {
                 Template::Render((const C *)b.p, SizeT(b.n), root, o);
             }
